@@ -101,6 +101,19 @@ def corners_table(ctx, clause):
         ok = outs == [("return", want)]
         obs.append(Ob(clause, "R-TABLE", "R-TABLE|sparql-binding-corners|%s,%s" % (elem, typ), f.loc(), ok,
                       "binding %r of type %s -> %r" % (elem, typ, want) if ok else "expected %r, code gives %s" % (want, outs)))
+    # second look at the same tokens (selector-driven yielder, local cache): IRIs already carry corners from their binding type,
+    # so a token without corners is a literal or a blank node and must be left alone whatever it looks like - except the
+    # historical http(s) heuristic
+    g = ctx.p.func("shexer.utils.uri:add_corners_if_it_is_an_uri")
+    for tok, want in (("<urn:isbn:1>", "<urn:isbn:1>"), ("<http://x/y>", "<http://x/y>"), ("http://x/y", "<http://x/y>"), ("https://x/y", "<https://x/y>"),
+                      ("doi:10.1000/182", "doi:10.1000/182"), ("urn:isbn:0451450523", "urn:isbn:0451450523"), ("tel:555-0101", "tel:555-0101"),
+                      ("mailto:a@b.org", "mailto:a@b.org"), ("key:value", "key:value"), ("plain text", "plain text"), ("_:b0", "_:b0")):
+        outs = ev.outcomes(g, {g.bound_params[0]: tok})
+        ok = outs == [("return", want)]
+        obs.append(Ob(clause, "R-TABLE", "R-TABLE|token-corners|%s" % tok, g.loc(), ok,
+                      "token %r -> %r" % (tok, want) if ok else
+                      "token %r: expected %r, code gives %s - a plain literal from the endpoint is turned into an IRI (local extraction keeps "
+                      "it a string)" % (tok, want, outs)))
     return obs
 
 
